@@ -53,3 +53,88 @@ Proof. exact delete_triggers_reload. Qed.
 Theorem C07_reprocess_sets_reload : forall rank w s k w',
   wstep_t rank w (ESvc s k) = Some (w', [ReprocessAll]) -> w_reload w' = true.
 Proof. exact reprocess_sets_reload. Qed.
+
+(* ==== the statement over whole histories ==== *)
+From Verif Require Import Proofs.AllocMonoP Proofs.CtrlStarveP.
+
+(* C07: in every history of the reconciler (creations, edits, deletions, pool
+   changes, single-service reconciles, full re-syncs in any admitted order,
+   failing status writes, restarts) in which no Service's ports are edited,
+   whenever there is no pending work a LoadBalancer Service with valid cluster IPs
+   that has no address has no admissible assignment in the controller's memory
+   (which, by C06_quiescent_memory_eq_status, is what the statuses record) *)
+Theorem C07_quiescent_no_starvation : forall rank ports_of evs w s o,
+  Forall (ports_ev ports_of) evs -> wrun rank evs world0 = Some w -> quiescent w ->
+  aget (w_api w) s = Some o -> eligible o -> o_status o = [] ->
+  no_offer (c_mem (w_ctl w)) s o.
+Proof. exact quiescent_no_starvation. Qed.
+
+(* what "no admissible assignment" says when nothing specific is requested: every
+   pinned or unpinned auto-assign pool refuses every candidate list of addresses *)
+Theorem C07_no_offer_every_pool_dry : forall a s o,
+  o_want o = WNone -> o_want_pool o = None -> no_offer a s o ->
+  forall p ips, In p (pinned_pools (s_pools a) (o_req o) ++ unpinned_pools (s_pools a)) ->
+    offer_ok a s (o_req o) p ips = false.
+Proof.
+  intros a s o H1 H2 H. unfold no_offer in H. rewrite H1, H2 in H. apply allocate_complete. exact H.
+Qed.
+
+(* the three ingredients *)
+Theorem C07_handler_unserved_only_if_nothing_admissible : forall rank s a o k v ok,
+  minv a -> eligible o -> by_name (s_pools a) <> [] ->
+  converge rank a s o k = CR v ok -> cv_status v = [] -> no_offer (cv_mem v) s o.
+Proof. exact converge_unserved. Qed.
+
+Theorem C07_quiet_handler_only_extends : forall rank c s o k oc,
+  set_balancer rank c s (Some o) k = Some oc -> c_have_pools c = true -> minv (c_mem c) ->
+  oc_sync oc <> ReprocessAll ->
+  (forall al, get_alloc (c_mem c) s = Some al -> a_ports al = r_ports (o_req o)) ->
+  ext s (c_mem c) (c_mem (oc_state oc)).
+Proof. exact set_balancer_ext. Qed.
+
+Theorem C07_availability_antitone : forall t a a' s o,
+  Inv a -> Inv a' -> ext t a a' -> no_offer a s o -> no_offer a' s o.
+Proof. exact no_offer_anti. Qed.
+
+(* non-vacuity and the limit of the statement (finding F13b) *)
+From Coq Require Import Bool.
+Import ListNotations.
+Local Open Scope N_scope.
+Definition xrank (x : ip) : N := ip_val x.
+Definition xpool : pool := {| p_name := 1; p_cidrs := [ {| pfam := F4; pbase := 167772161; plen := 32 |} ]; p_avoid := false; p_auto := true; p_pin := None |}.
+Definition xpools : pools := {| by_name := [xpool]; by_ns := []; by_sel := [] |}.
+Definition xreq (port : N) : req :=
+  {| r_ns := 1; r_labels := []; r_fam := S4; r_pol := Single; r_first6 := false;
+     r_ports := [ {| proto := 0; pnum := port |} ]; r_key := {| sharing := 5; backend := 0 |} |}.
+Definition xobj (port : N) : svcobj :=
+  {| o_lb := true; o_req := xreq port; o_cluster_ok := true; o_want := WNone; o_want_pool := None; o_status := []; o_annot := None |}.
+Definition xaddr : ip := V4 167772161.
+Definition kgot : oracle := {| k_write := true; k_final := Some (1, [xaddr]) |}.
+Definition knone : oracle := {| k_write := true; k_final := None |}.
+Definition xevs1 : list ev :=
+  [EPools xpools; UPut 1 (xobj 80); UPut 2 (xobj 80); EReload [1; 2] [kgot; knone]; EReload [1; 2] [kgot; knone]; ESvc 1 kgot; ESvc 2 knone].
+Definition xevs2 : list ev := xevs1 ++ [UPut 1 (xobj 443); ESvc 1 kgot].
+
+(* the hypotheses are met by a real history that ends quiescent with a waiting Service *)
+Example C07_quiescent_no_starvation_nonvacuous :
+  exists w o, Forall (ports_ev (fun _ => r_ports (xreq 80))) xevs1 /\ wrun xrank xevs1 world0 = Some w /\ quiescent w /\
+    aget (w_api w) 2 = Some o /\ eligible o /\ o_status o = [].
+Proof.
+  destruct (wrun xrank xevs1 world0) as [w|] eqn:E; [|vm_compute in E; discriminate].
+  exists w, (xobj 80). vm_compute in E. injection E as <-.
+  split; [repeat constructor|]. split; [reflexivity|]. split; [repeat split|]. repeat split.
+Qed.
+
+(* without the hypothesis on ports the statement is false of the faithful model:
+   the holder's ports are edited so that the waiter could now share the address,
+   SetBalancer answers Success (nothing released, same key), nothing is pending,
+   and the waiter still has no address although one is admissible *)
+Theorem C07_port_edit_starves_refuted :
+  exists evs w s o, wrun xrank evs world0 = Some w /\ quiescent w /\
+    aget (w_api w) s = Some o /\ eligible o /\ o_status o = [] /\ ~ no_offer (c_mem (w_ctl w)) s o.
+Proof.
+  destruct (wrun xrank xevs2 world0) as [w|] eqn:E; [|vm_compute in E; discriminate].
+  exists xevs2, w, 2, (xobj 80). vm_compute in E. injection E as <-.
+  split; [reflexivity|]. split; [repeat split|]. split; [reflexivity|]. split; [repeat split|]. split; [reflexivity|].
+  unfold no_offer. cbn [o_want o_want_pool xobj]. vm_compute. discriminate.
+Qed.
